@@ -268,3 +268,8 @@ package lexer
 
 //@ func New
 //@   ensures[value] result != nil
+
+// Printing a token type: a constant name per type; reads and writes nothing.
+//@ props C08 C13
+//@ func (tt TokenType) String
+//@   pure
